@@ -286,7 +286,7 @@ def run_harnesses(crate, harness_names, jobs=8, harness_timeout=600, total_timeo
     heavy = [h for h in harness_names if h in set(heavy)]
     light = [h for h in harness_names if h not in set(heavy)]
     bs = int(os.environ.get("FV_BATCH", "40"))
-    batches = [(light[i:i + bs], jobs) for i in range(0, len(light), bs)] + [(heavy[i:i + 6], min(jobs, 3)) for i in range(0, len(heavy), 6)]
+    batches = [(light[i:i + bs], jobs) for i in range(0, len(light), bs)] + [(heavy[i:i + 3], min(jobs, 3)) for i in range(0, len(heavy), 3)]
     t0 = time.time()
     merged = None
     res = dict(cmd="", out="", json=None, wall_s=0.0, timed_out=False, rc=0, killed=[], peak_rss_kb=0, peak_driver_kb=0, batches=len(batches))
